@@ -396,7 +396,7 @@ type sclient struct {
 	auto   chan srvTx
 	quit   chan struct{}
 	once   sync.Once
-	honest bool
+	honest int32 // atomic: answers the node's requests with empty lists
 	reader bool
 
 	established bool  // harness belief: the server runs this connection as a peer
@@ -480,10 +480,10 @@ func (cl *sclient) startReader() {
 			case m.code == bPing:
 				t := txBytes(bPong, []byte{0xC0})
 				a = &t
-			case cl.honest && (m.code == subOff+codeGetBlockHashes || m.code == subOff+codeGetBlockHashesFrom):
+			case atomic.LoadInt32(&cl.honest) == 1 && (m.code == subOff+codeGetBlockHashes || m.code == subOff+codeGetBlockHashesFrom):
 				t := txBytes(subOff+codeBlockHashes, []byte{0xC0})
 				a = &t
-			case cl.honest && m.code == subOff+codeGetBlocks:
+			case atomic.LoadInt32(&cl.honest) == 1 && m.code == subOff+codeGetBlocks:
 				t := txBytes(subOff+codeBlocks, []byte{0xC0})
 				a = &t
 			}
@@ -865,7 +865,9 @@ func (cc *caseCtx) connectPeer(name string, key *ecdsa.PrivateKey, honest bool) 
 	if cl == nil {
 		return nil, ""
 	}
-	cl.honest = honest
+	if honest {
+		atomic.StoreInt32(&cl.honest, 1)
+	}
 	cc.c.Checkpoint()
 	if err := cc.encHandshake(cl); err != nil {
 		cl.close(false)
@@ -1429,6 +1431,23 @@ func serverProp(c *pbt.C) {
 	if !cc.settle(cc.residentsAlive(), "the probe was closed") {
 		return
 	}
+	// the server's peer set is exactly the honest peers
+	want := map[discover.NodeID]bool{}
+	for _, r := range env.res {
+		want[r.id] = true
+	}
+	peers := env.srv.Peers()
+	for _, p := range peers {
+		if !want[p.ID()] {
+			env.dirty = "ghost peer"
+			c.Failf("C15/server/peer-not-removed", "after the case the server lists peer %x.. (%s, %v), which is none of the honest connections\nsession:\n  %s", shortID(p.ID()), p.Name(), p.RemoteAddr(), cc.story())
+		}
+		delete(want, p.ID())
+	}
+	if len(want) > 0 || len(peers) != srvResidents {
+		env.dirty = "honest peer dropped"
+		c.Failf("C15/server/honest-peer-dropped", "after the case the server lists %d peers; honest peers missing from the list: %d\nsession:\n  %s", len(peers), len(want), cc.story())
+	}
 	if f := env.sh.a.Frontier().Hash; f != env.frontier {
 		c.Failf("C15/server/state-changed", "the node's frontier moved from %s to %s\nsession:\n  %s", short(env.frontier), short(f), cc.story())
 	}
@@ -1562,7 +1581,7 @@ func (cc *caseCtx) scPreEnc() {
 		}
 		cl.tap.chunk = 0
 		cc.passed = true
-		cl.honest = true
+		atomic.StoreInt32(&cl.honest, 1)
 		cl.startReader()
 		_ = cl.send(txBytes(0, mustEnc(cc.goodHS(cl))))
 		est, ok := cc.awaitEstablished(cl, "the trickling client to be established", false)
@@ -1855,7 +1874,7 @@ func (cc *caseCtx) protoHSOne(cl *sclient, l, kind string) {
 		}
 	}
 	if hasEth || kind == "second-handshake" || kind == "valid" {
-		cl.honest = true
+		atomic.StoreInt32(&cl.honest, 1)
 		ok, why := cc.honestStatus(cl)
 		if cc.aborted {
 			return
@@ -2664,3 +2683,5 @@ func (cc *caseCtx) scHalfOpen() {
 		return
 	}
 }
+
+func shortID(id discover.NodeID) []byte { return id[:4] }
